@@ -372,6 +372,62 @@ def length_lemmas():
     return out
 
 
+def doubling_text(cv):
+    """spec functions for the discretised length and the refinement lemma: doubling the number of segments does not shorten the polyline"""
+    N, M = cv.name, cv.mod
+    sh = cv.sh
+    pts = [SV.of(sh, 'c.%s' % p) for p in cv.pts]
+    tt = leaf('t')
+    b = bern(cv.deg, pts, tt)
+    o = []
+    for i, f in enumerate(sh.fields):
+        o.append('pub open spec fn bz_%s_%s(c: %s<R>, t: real) -> real { %s }' % (M, f, N, X.verus(b[i])))
+    diff = lambda t1, t0: ['(bz_%s_%s(c, %s) - bz_%s_%s(c, %s))' % (M, f, t1, M, f, t0) for f in sh.fields]
+
+    def n2a(d):
+        # in the association the vector code produces: ((dx*dx) + (dy*dy)) + (dz*dz)
+        e = '(%s * %s)' % (d[0], d[0])
+        for x in d[1:]:
+            e = '(%s + (%s * %s))' % (e, x, x)
+        return e
+    o.append('pub open spec fn seg_%s(c: %s<R>, n1: real, j: real) -> real { sqrt_r(%s) }' % (M, N, n2a(diff('((j + 1real) / n1)', '(j / n1)'))))
+    o.append('pub open spec fn plen_%s(c: %s<R>, n1: real, k: nat) -> real decreases k {\n'
+             '    if k == 0 { 0real } else { plen_%s(c, n1, (k - 1) as nat) + seg_%s(c, n1, (k - 1) as real) }\n}' % (M, N, M, M))
+    d_a, d_b, d_c = diff('tm', 't0'), diff('t1', 'tm'), diff('t1', 't0')
+    tmpl = """pub proof fn lemma_doubling_%(M)s(c: %(N)s<R>, n1: real, k: nat)
+    requires n1 > 0real
+    ensures plen_%(M)s(c, 2real * n1, 2 * k) >= plen_%(M)s(c, n1, k)
+    decreases k
+{
+    if k > 0 {
+        lemma_doubling_%(M)s(c, n1, (k - 1) as nat);
+        let j = (k - 1) as real;
+        let t0 = j / n1; let t1 = (j + 1real) / n1; let tm = ((2real * j) + 1real) / (2real * n1);
+        assert(((2real * j) / (2real * n1)) == t0) by (nonlinear_arith) requires n1 > 0real, t0 == j / n1;
+        assert(((((2real * j) + 1real) + 1real) / (2real * n1)) == t1) by (nonlinear_arith) requires n1 > 0real, t1 == (j + 1real) / n1;
+        assert(plen_%(M)s(c, 2real * n1, 2 * k) == plen_%(M)s(c, 2real * n1, (2 * k - 2) as nat) + seg_%(M)s(c, 2real * n1, (2 * k - 2) as real)
+               + seg_%(M)s(c, 2real * n1, (2 * k - 1) as real)) by { reveal_with_fuel(plen_%(M)s, 3); }
+        assert(((2 * k - 2) as real) == 2real * j);
+        assert(((2 * k - 1) as real) == (2real * j) + 1real);
+        assert((2 * k - 2) as nat == 2 * ((k - 1) as nat));
+        let da = %(da)s; let db = %(db)s; let dc = %(dc)s;
+        axiom_sqrt(da); axiom_sqrt(db); axiom_sqrt(dc);
+        crate::lemma_triangle%(n)d(%(va)s, %(vb)s, sqrt_r(da), sqrt_r(db), sqrt_r(dc));
+        assert(seg_%(M)s(c, 2real * n1, 2real * j) == sqrt_r(da));
+        assert(seg_%(M)s(c, 2real * n1, (2real * j) + 1real) == sqrt_r(db));
+        assert(seg_%(M)s(c, n1, j) == sqrt_r(dc));
+    }
+}"""
+    o.append(tmpl % dict(M=M, N=N, n=sh.dim, da=n2a(d_a), db=n2a(d_b), dc=n2a(d_c), va=', '.join(d_a), vb=', '.join(d_b)))
+    o.append(thm_fn('thm_length_doubling_%s' % M, ['b: %s<R>' % N, 'n: u16'], ['n < 32767'],
+                    '    let l1 = b.length_by_discretization(n);\n    let m: u16 = 2 * n + 1;\n    let l2 = b.length_by_discretization(m);\n'
+                    '    proof { lemma_doubling_%s(b, n as real + 1real, (n + 1) as nat);\n'
+                    '            assert((m as real + 1real) == 2real * (n as real + 1real));\n'
+                    '            assert(((m + 1) as nat) == 2 * ((n + 1) as nat)); }\n' % M,
+                    ['l2.v@ >= l1.v@'], 'C15'))
+    return '\n'.join(o)
+
+
 def add_length(u, cv):
     """length_by_discretization: the polyline through curve points from t=0 to t=1 is at least as long as the chord and at most as
     long as the control polygon"""
@@ -393,6 +449,8 @@ def add_length(u, cv):
     inv = ['prev_point.%s.v@ == %s' % (f, X.verus(at_k[i])) for i, f in enumerate(sh.fields)]
     inv += ['length.v@ >= sqrt_r(%s)' % d2(prev, start), 'length.v@ >= 0real']
     inv += ['(it.index@ == step_count as int + 1) ==> (%s)' % ' && '.join('prev_point.%s.v@ == self.end.%s.v@' % (f, f) for f in sh.fields)]
+    M = cv.mod
+    inv += ['length.v@ == plen_%s(self, step_count as real + 1real, it.index@ as nat)' % M]
     inv += ['%s' % ' && '.join('m%d == sqrt_r(%s)' % (i, d2(pts[i + 1], pts[i])) for i in range(deg)),
             'length.v@ <= %s' % X.verus(bound(k)),
             '(it.index@ == step_count as int + 1) ==> length.v@ <= %s' % ' + '.join('m%d' % i for i in range(deg))]
@@ -437,10 +495,14 @@ def add_length(u, cv):
                      ', '.join(X.verus(e) for e in dvec.e), X.verus(wd[2])))
     up.append('crate::lemma_bound%d_step(tp, t.v@, %s);' % (deg, ', '.join('m%d' % i for i in range(deg))))
     upper = 'proof { ' + '\n    '.join(up) + ' }'
+    unfold = ('proof { assert(plen_%s(self, step_count as real + 1real, (i + 1) as nat) == plen_%s(self, step_count as real + 1real, i as nat)'
+              ' + seg_%s(self, step_count as real + 1real, i as real)); }' % (M, M, M))
     u.take(P, gh, 'length_by_discretization', C(
-        ensures=['res.v@ >= sqrt_r(%s)' % d2(end, start), 'res.v@ <= %s' % poly],
+        ensures=['res.v@ >= sqrt_r(%s)' % d2(end, start), 'res.v@ <= %s' % poly,
+                 'res.v@ == plen_%s(self, step_count as real + 1real, (step_count + 1) as nat)' % M],
         loops=[dict(iter='it', invariant=inv)],
-        inserts=[('prev_point = next_point;', tri + '\n' + upper + '\n' + last), ('for i in', entry)]))
+        inserts=[('prev_point = next_point;', tri + '\n' + upper + '\n' + unfold + '\n' + last), ('for i in', entry)]))
+    u.add(cv.path, doubling_text(cv))
 
 
 def add_search(u, cv):
@@ -530,6 +592,5 @@ def plan(exp, tier):
                       'binary_search_point_by_steps: Range::map is outside the Verus subset; its hand-over to binary_search_point is checked by Kani (bounded: steps <= 6) on f32 curves']
     p.not_decided += ['cubic extremality (no point of the cubic on [0,1] lies beyond evaluate(min/max)): the parameters are proved to lie in [0,1] and the reported inflections to be zeros of the derivative in (0,1); the min/max selection is contracted by cases but its extremality theorem is not discharged',
                       'termination of binary_search_point (the unchanged code does not terminate for steps = 0: the half interval is 1/0)',
-                      'length_by_discretization (>= chord, <= control polygon, monotone under doubling)',
                       'inputs inside the tolerance bands 0 < |q| <= epsilon of the tested quantities (stated as a precondition of the theorems)']
     return p
